@@ -78,6 +78,19 @@ const COORDS: &[(f64, f64)] = &[
     (51.5074, -0.1278),   // London
     (-41.2866, 174.7756), // Wellington
     (28.6139, 77.209),    // Delhi
+    // territories whose boundary lies inside the boundary of another listed country (two candidate
+    // countries for one point: the look-up must always answer the same one)
+    (22.3193, 114.1694),  // Hong Kong (HK / CN)
+    (18.4655, -66.1057),  // San Juan (PR / US)
+    (64.1814, -51.6941),  // Nuuk (GL / DK)
+    (60.0973, 19.9348),   // Mariehamn (AX / FI)
+    (62.0079, -6.79),     // Tórshavn (FO / DK)
+    (78.2232, 15.6267),   // Longyearbyen (SJ / NO)
+    (49.4657, -2.5853),   // Guernsey (GG / GB)
+    (49.2144, -2.1312),   // Jersey (JE / GB)
+    (54.1523, -4.4861),   // Douglas (IM / GB)
+    (36.1408, -5.3536),   // Gibraltar (GI / GB)
+    (16.7425, -62.1874),  // Montserrat (MS / GB)
 ];
 
 const COUNTRIES: &[&str] = &["FR", "DE", "US", "GB", "JP", "BR", "IT", "AU", "XX"];
@@ -778,8 +791,44 @@ pub fn exec(op: &str, a: &[&str]) -> Option<String> {
             batch(mode, n, seed.parse().ok()?)
         }
         ("pur.firstuse", [order]) => firstuse(order),
+        ("pur.rebuild", [i, n]) => rebuild(i.parse().ok()?, n.parse().ok()?),
         _ => None,
     }
+}
+
+/// Everything that is derived from a pair of coordinates, rebuilt from scratch: the country, the time
+/// zone, the size of the attached calendars and one evaluation through `Context::from_coords`.
+fn from_coords_answer(i: usize) -> String {
+    let (lat, lon) = COORDS[i];
+    let coords = Coordinates::new(lat, lon).expect("valid coordinates");
+    let country = Country::try_from_coords(coords);
+    let hol = country.map(Country::holidays).unwrap_or_default();
+    let tz = TzLocation::from_coords(coords);
+    let ctx = Context::from_coords(coords);
+    let from = chrono::NaiveDate::from_ymd_opt(2024, 1, 1).unwrap().and_hms_opt(0, 0, 0).unwrap();
+    let to = chrono::NaiveDate::from_ymd_opt(2025, 1, 1).unwrap().and_hms_opt(0, 0, 0).unwrap();
+    let (from, to) = (ctx.locale.datetime(from), ctx.locale.datetime(to));
+    let oh = OpeningHours::parse("24/7; PH off; SH unknown").expect("parse").with_context(ctx);
+    let changes = oh.iter_range(from, to).count();
+    format!("{:?}/{}/{}+{}/{}", country, tz.get_timezone().name(), hol.get_public().count(), hol.get_school().count(), changes)
+}
+
+/// `pur.rebuild <i> <n>`: the answer derived from coordinates `i`, rebuilt `n` times in a row and then
+/// `n` times from 8 fresh threads: `<eq> <diff> <first answer>` (diff = answers unlike the first)
+fn rebuild(i: usize, n: usize) -> Option<String> {
+    if i >= COORDS.len() || n == 0 || n > 10_000 {
+        return None;
+    }
+    let first = from_coords_answer(i);
+    let mut all: Vec<String> = (1..n).map(|_| from_coords_answer(i)).collect();
+    let per = n.div_ceil(8);
+    let threaded: Vec<Vec<String>> = std::thread::scope(|s| {
+        let hs: Vec<_> = (0..8).map(|_| s.spawn(move || (0..per).map(|_| from_coords_answer(i)).collect::<Vec<String>>())).collect();
+        hs.into_iter().map(|h| h.join().unwrap_or_default()).collect()
+    });
+    all.extend(threaded.into_iter().flatten());
+    let diff = all.iter().filter(|a| **a != first).count();
+    Some(format!("{} {} {}", all.len() + 1 - diff, diff, first.replace(' ', "_")))
 }
 
 fn permutations(s: &[char]) -> Vec<String> {
@@ -801,6 +850,10 @@ pub fn gen(tier: &str, rng: &mut Rng, emit: &mut dyn FnMut(String)) {
     let thorough = tier == "thorough";
     emit("pur.selftest counter".into());
     emit("pur.selftest racy-cell".into());
+    // everything derived from coordinates, rebuilt again and again (sequentially and from fresh threads)
+    for i in 0..COORDS.len() {
+        emit(format!("pur.rebuild {i} {}", if thorough { 200 } else { 48 }));
+    }
     let (nseeds, n) = if thorough { (24, 6000) } else { (6, 2000) };
     for _ in 0..nseeds {
         let seed = rng.below(1_000_000);
